@@ -5,6 +5,7 @@ package main
 //   proxy_min_budget     : retiesRemaining literal of newRetryState (go/ast)
 //   proxy_reset_guarded  : shape of retryState.reset(): bare `...Retries().Decrease()` (false) or
 //                          `if r.<flag> { ...Decrease() ... }` (true) (go/ast)
+//   proxy_direct_clears_again : processError's `if s.directResponse {..}` block assigns receiverFiltersAgainPhase = InitPhase (go/ast)
 //   proxy_reason_code    : types.ConvertReasonToCode evaluated on every reset reason (runs the real function)
 //   phase order          : the types.Phase constants have the order the model's [phase] assumes (runs the real constants)
 
@@ -75,6 +76,64 @@ func genProxyTokens(repo string) (string, error) {
 	}
 	fmt.Fprintf(&b, "Definition proxy_loop_bound : nat := %s%%nat.\n", bound)
 
+	// --- does the direct-response branch of processError cancel a pending re-match / re-choose?
+	dca, dcr := false, false
+	if pe := FindFunc(f, "downStream", "processError"); pe != nil {
+		nif := 0
+		ast.Inspect(pe.Body, func(n ast.Node) bool {
+			is, isIf := n.(*ast.IfStmt)
+			if !isIf {
+				return true
+			}
+			se, isSel := is.Cond.(*ast.SelectorExpr)
+			if !isSel || se.Sel.Name != "directResponse" {
+				return true
+			}
+			nif++
+			for _, st := range is.Body.List {
+				if as, isAs := st.(*ast.AssignStmt); isAs && len(as.Lhs) == 1 {
+					if l, isL := as.Lhs[0].(*ast.SelectorExpr); isL && l.Sel.Name == "receiverFiltersAgainPhase" {
+						if r, isR := as.Rhs[0].(*ast.SelectorExpr); isR && r.Sel.Name == "InitPhase" {
+							dca = true
+						}
+					}
+				}
+			}
+			// cancels a retry set up in the same call: `if s.retryState != nil { s.retryState.reset() }` and
+			// `if s.upstreamRequest != nil { s.upstreamRequest.setupRetry = false }`
+			hasReset, hasCancel := false, false
+			ast.Inspect(is.Body, func(m ast.Node) bool {
+				switch x := m.(type) {
+				case *ast.CallExpr:
+					if se, isSel := x.Fun.(*ast.SelectorExpr); isSel && se.Sel.Name == "reset" {
+						hasReset = true
+					}
+				case *ast.AssignStmt:
+					if len(x.Lhs) == 1 && len(x.Rhs) == 1 {
+						if l, isL := x.Lhs[0].(*ast.SelectorExpr); isL && l.Sel.Name == "setupRetry" {
+							if id, isID := x.Rhs[0].(*ast.Ident); isID && id.Name == "false" {
+								hasCancel = true
+							}
+						}
+					}
+				}
+				return true
+			})
+			if hasReset != hasCancel {
+				ok = false
+			}
+			dcr = hasReset && hasCancel
+			return true
+		})
+		if nif != 1 {
+			ok = false
+		}
+	} else {
+		ok = false
+	}
+	fmt.Fprintf(&b, "Definition proxy_direct_clears_again : bool := %v.\n", dca)
+	fmt.Fprintf(&b, "Definition proxy_direct_cancels_retry : bool := %v.\n", dcr)
+
 	// --- retry budget default and reset() shape
 	_, rf, err := ParseGoFile(repo, "pkg/proxy/retrystate.go")
 	if err != nil {
@@ -144,7 +203,7 @@ func genProxyTokens(repo string) (string, error) {
 			ok = false
 		}
 	}
-	b.WriteString("Definition proxy_src : srcp :=\n  {| loop_bound := proxy_loop_bound; min_budget := proxy_min_budget; reset_guarded := proxy_reset_guarded;\n     reason_code := proxy_reason_code |}.\n")
+	b.WriteString("Definition proxy_src : srcp :=\n  {| loop_bound := proxy_loop_bound; min_budget := proxy_min_budget; reset_guarded := proxy_reset_guarded;\n     direct_clears_again := proxy_direct_clears_again;\n     direct_cancels_retry := proxy_direct_cancels_retry; reason_code := proxy_reason_code |}.\n")
 	fmt.Fprintf(&b, "Definition ProxyTokens_translator_ok := %v.\n", ok)
 	return b.String(), nil
 }
